@@ -33,6 +33,9 @@ func runC07(c *Check, tier string) {
 	ruleCommitOnlyAfterCopy(c, "R07l")
 	ruleMemoInvalidatedOnDelete(c, "R07m")
 	ruleUploadLoopComplete(c, "R07n")
+	// a failed restore is not remembered as done, and a record never names a digest that was not stored
+	ruleLoadedMarkAfterLoads(c, "R07o")
+	ruleRecordOnlyAfterStore(c, "R07p")
 	// a build killed while it held the workspace lock must not block the next one
 	if li := findLocker(c, "R07j"); li != nil {
 		ruleR10b(c, li, "R07j", false)
